@@ -1,17 +1,16 @@
 """C05 — hit counts come from a valid, maximum one-to-one matching."""
-import itertools
-from lib import core
+from lib import core, propgen
+from harness.oracles import all as ALL
 
 ID = 'C05'
-UNITS = ['bipartite_match']
+UNITS = ['bipartite_match', 'match_events', 'note_matching', 'multipitch_metrics']
 TRANSLATORS = []
-NOT_COVERED = ('termination of the model within its fuel (S|g| phases) is observed in every correspondence run, not proved; '
-               'float rounding of est +/- window off the exact lattice')
+NOT_COVERED = ('termination of the matcher model within its fuel is observed in every correspondence run, not proved (theorems are "whenever the '
+               'model returns"); np.argsort tie order: on references with tied values only sizes and validity are compared, not identical pairs')
 ASSUMPTIONS = ['dict insertion order of CPython >= 3.7 (the model reproduces the returned dict including its order)']
 
 
 def brute_max(g):
-    """Maximum matching size of {u: [v...]} by DFS augmenting (Kuhn) - independent of mir_eval."""
     match = {}
 
     def aug(u, seen):
@@ -27,7 +26,6 @@ def brute_max(g):
 
 
 def check_matching(g, m):
-    """m: {v: u}. Returns None when valid and maximum, else a description."""
     if len(set(m.values())) != len(m):
         return 'an item of the first side is used twice'
     for v, u in m.items():
@@ -45,39 +43,42 @@ def oracle_at(unit, case, impl):
             return {'function': 'util._bipartite_match', 'relation': 'returns a matching', 'input': case, 'observed': impl}
         why = check_matching(g, {v: u for v, u in impl[1]})
         if why:
-            return {'function': 'util._bipartite_match', 'relation': 'valid maximum matching', 'input': case,
-                    'observed': impl, 'why': why}
+            return {'function': 'util._bipartite_match', 'relation': 'valid maximum matching', 'input': case, 'observed': impl, 'why': why}
     return None
 
 
-def oracle_search(rng, budget, tier):
-    import time
+def sweep_graphs(rng, n):
     from harness.units.bipartite_match import UNIT
-    t0 = time.time()
-    found, n = [], 0
-    cases = UNIT.exhaustive('quick') + UNIT.gen(rng, 3000)
-    for c in cases:
-        if time.time() - t0 > budget:
-            break
-        n += 1
+    out = []
+    for c in UNIT.gen(rng, n * 5):
         f = oracle_at('bipartite_match', c, UNIT.run(c))
         if f:
-            found.append(f)
+            out.append(f)
             break
-    return found, n
+    return out
+
+
+oracle_search = propgen.budgeted([sweep_graphs, ALL.for_property(ID)])
+
+
+def diagnose(b):
+    import random
+    r = random.Random(core.seed() + 1)
+    return (sweep_graphs(r, 2000) or ALL.for_property(ID)(r, 300))[:2]
 
 
 def known_match(f, known):
-    return None
+    return ALL.is_known(f)
 
 
 MANIFEST = {
     'text': 'Theorem (all graphs, no size bound): whenever the Gallina transcription of util._bipartite_match returns, the result is a '
-            'one-to-one set of feasible pairs and no larger one exists (Hopcroft-Karp augmentation/layering invariants + Koenig cover), '
-            'and its size is the declarative maximum max_size, which is invariant under reordering. The model is tied to the code by an '
-            'exact-dict correspondence evaluated inside Coq (all graphs up to 3x3/3x4 plus alternating-path-rich random graphs).',
+            'one-to-one set of feasible pairs and no larger one exists (Hopcroft-Karp augmentation/layering invariants + Koenig cover); its size is the '
+            'declarative maximum, invariant under reordering and transposition. On top: the pair enumeration of _fast_hit_windows is exactly the tolerance '
+            'predicate (also for unsorted references), the graph has exactly those edges, and match_events / the three note matchers / the multipitch '
+            'frame counts are valid maximum matchings of their stated predicates. Tied by exact-dict, hit-set and matching correspondences evaluated in Coq.',
     'design_ref': 'DESIGN.md section 6, C05',
     'level_note': 'Trusted: Coq kernel + vm_compute; the correspondence harness; CPython dict order. Partial correctness: termination within the '
-                  'fuel is observed by correspondence, not proved. Graph construction (match_events, match_notes) is tied by correspondence units.',
-    'technique': 'Coq proof (invariants + Koenig certificate) on a Gallina model of Hopcroft-Karp; model/code correspondence by vm_compute',
+                  'fuel is observed by correspondence, not proved.',
+    'technique': 'Coq proof (invariants + Koenig certificate) on a Gallina model of Hopcroft-Karp and of the graph construction; model/code correspondence by vm_compute',
 }
